@@ -469,6 +469,18 @@ def exec_common(w, op):
             if d is not None:
                 dc[LABELS[op[1] % len(LABELS)]] = d
             return OK
+        if k == 'extend_list':
+            # several datasets in one call, possibly naming one of them twice, as a list or as another collection's content
+            ds = [w.pick_pool(h) for h in op[1]]
+            ds = [d for d in ds if d is not None]
+            if ds:
+                if len(ds) != len(set(id(d) for d in ds)):
+                    w.res.probe('extend_with_repeated_dataset')
+                if op[2]:
+                    dc.append(ds)
+                else:
+                    dc.extend(ds)
+            return OK
         if k == 'extend_junk':
             d = w.pick_pool(op[1])
             try:
@@ -601,6 +613,11 @@ def gen_common(rng, k):
     r8 = lambda: rng.randrange(8)
     if k == 'new':
         return ['new', rng.randrange(len(SHAPES)), rng.randrange(1, 4), rng.randrange(10000)]
+    if k == 'extend_list':
+        hs = [rng.randrange(8) for _ in range(rng.randrange(1, 4))]
+        if rng.chance(0.5):
+            hs.append(hs[0])
+        return [k, hs, rng.chance(0.3)]
     if k in ('append', 'remove', 'do_add', 'do_remove', 'extend_junk', 'remove_group'):
         return [k, r8()]
     if k in ('clear', 'append_junk', 'undo', 'redo', 'collect'):
